@@ -149,6 +149,10 @@ def mutate_bytes(data, rng, corpus=None):
         return _rbytes(rng, rng.choice([0, 1, 4, 13, 14, 30, 64, 200])), "b:random"
     if r < 0.08:
         return _header_then_random(data, rng), "b:hdr-then-random"
+    if r < 0.092:
+        out = long_zero_run(data, rng)
+        if out is not None:
+            return out, "b:long-zero-run"
     b = bytearray(data)
     k = rng.choice([1, 1, 1, 1, 2, 2, 3, 5])
     names = []
@@ -181,6 +185,36 @@ def _header_then_random(data, rng):
             out += b"BBCD\x10" + struct.pack(">II", 0, 13 + len(tail))
         return out
     return hdr + tail
+
+
+def long_zero_run(data, rng):
+    """A run of >= 3572 zero bytes inside the payload of a sequence header: the
+    unbounded exp-Golomb field being read there (version, profile, level, an
+    index, a frame rate / aspect ratio / clean area / offset value ...) decodes
+    to an integer of more than 4300 decimal digits.  Offsets are re-made
+    consistent so that the validator gets as far as that field."""
+    units, us = _unit_list(data)
+    if not units:
+        return None
+    hdrs = [i for i, u in enumerate(us) if u.parse_code == PC_SEQUENCE_HEADER and len(units[i]) > 14]
+    if not hdrs:
+        return None
+    i = rng.choice(hdrs)
+    u = bytearray(units[i])
+    p = rng.randrange(13, len(u))
+    run = bytes(rng.choice([3572, 3600, 3700, 4000]))
+    k = rng.random()
+    if k < 0.4:
+        # land inside the current field whatever the bit phase: keep the leading bits of the byte at p
+        keep = rng.randrange(0, 8)
+        first = u[p] & (0xFF << (8 - keep)) & 0xFF if keep else 0
+        u[p:p + 1] = bytes([first]) + run + rng.choice([b"\x80", b"\x40", b"\xff"]) + bytes([u[p]])
+    elif k < 0.8:
+        u[p:p] = run + rng.choice([b"\x80", b"\x40"])
+    else:
+        u[p:] = run + b"\x80" + bytes(rng.choice([0, 20, 85]))
+    units[i] = u
+    return _join_units(units, fix_offsets=True)
 
 
 def truncations(data):
@@ -345,6 +379,9 @@ def _new_value(key, v, rng, data_len):
     if key in _COEFF:
         return rng.choice([0, 1, -1, -v, v + 1, v - 1, 2 * v + 1, 255, -256, 1 << 20, -(1 << 31), rng.randrange(-40, 41)])
     # generic unsigned exp-Golomb field
+    if rng.random() < 0.012:
+        # more than 4300 decimal digits (CPython's int -> str conversion limit)
+        return (1 << rng.choice([14300, 14400, 16000])) - rng.choice([0, 1])
     return rng.choice([0, 0, 1, 1, 2, 3, 4, v + 1, v + 1, max(0, v - 1), 2 * v, 2 * v + 1, rng.randrange(0, 24),
                        rng.randrange(0, 24), 63, 255, 1 << 16, (1 << 32) - 1, 1 << 40])
 
